@@ -350,6 +350,54 @@ pub fn run(args: &Args) -> i32 {
             rep.violation(b);
         }
     }
+    // long inputs: validation that works a machine word / a vector / a chunk at a time has
+    // its corners beyond the short strings above. Every total length 8..=max_long of ASCII
+    // filler with every byte string of length <= 3 over the alphabet embedded at every offset;
+    // constructor verdict, error offsets and content only.
+    let max_long = args.opt_usize("long", args.tier.pick(40, 72));
+    let lens: Vec<usize> = (8..=max_long).collect();
+    let long_parts = mcutil::par_map(args.threads, &lens, |_, &l| {
+        let mut n = 0u64;
+        let mut vios: Vec<Violation> = vec![];
+        for w in 0..=3usize.min(l) {
+            for off in 0..=(l - w) {
+                mcutil::for_each_seq(12, w, |seq| {
+                    if w > 0 && off > 0 && seq.iter().all(|s| ALPHA[*s] == b'a') {
+                        return; // same input as offset 0
+                    }
+                    let mut input = vec![b'a'; l];
+                    for (i, s) in seq.iter().enumerate() {
+                        input[off + i] = ALPHA[*s];
+                    }
+                    n += 1;
+                    let want = std::str::from_utf8(&input);
+                    for (name, got) in fallible(&input) {
+                        let bad = match (&want, got) {
+                            (Ok(s), Ok(bs)) => (&*bs != *s || bs.as_bytes() != &input[..]).then(|| ("long-input:content-differs", format!("TryFrom<{name}> holds other bytes than it was given"))),
+                            (Err(e), Err(g)) => (*e != g).then(|| ("long-input:constructor-error-offsets", format!("TryFrom<{name}> error {g:?} differs from str::from_utf8's {e:?}"))),
+                            (Ok(_), Err(_)) => Some(("long-input:constructor-rejects-valid", format!("TryFrom<{name}> rejected valid UTF-8"))),
+                            (Err(_), Ok(_)) => Some(("long-input:constructor-accepts-invalid", format!("TryFrom<{name}> accepted invalid UTF-8"))),
+                        };
+                        if let Some((sig, what)) = bad {
+                            if !vios.iter().any(|y| y.signature == sig) {
+                                vios.push(vio(sig, &input, what));
+                            }
+                        }
+                    }
+                });
+            }
+        }
+        (n, vios)
+    });
+    let mut long_inputs = 0;
+    for (n, vios) in long_parts {
+        long_inputs += n;
+        for x in vios {
+            rep.violation(x);
+        }
+    }
+    rep.set("long_inputs", long_inputs);
+    rep.set("long_input_rule", format!("every length 8..={max_long} of ASCII filler with every byte string of length <= 3 over the alphabet at every offset, through the same fallible constructors (verdict, error offsets, content)"));
     rep.set("byte_strings", evals);
     rep.set("valid_utf8_strings", valid);
     rep.set("operations_compared_with_str", ops);
